@@ -112,7 +112,7 @@ def main():
         r_ = pipeline.run_unit(t, tier)
         # thorough tier: a unit whose larger bounds do not finish within the budget falls back to its per-change bounds
         # (the result then says so: it is a proof for the quick-tier bounds only, never counted as a thorough one)
-        if tier == 'thorough' and r_.get('status') == 'undecided' and 'time-out' in str(r_.get('reason')):
+        if tier == 'thorough' and r_.get('status') == 'undecided' and ('time-out' in str(r_.get('reason')) or 'memory' in str(r_.get('reason'))):
             why = r_.get('reason')
             r_ = pipeline.run_unit(t, 'quick')
             r_['fallback'] = 'thorough bounds: %s; result is for the quick-tier bounds' % why
